@@ -21,7 +21,11 @@ Definition mk_cfg (enc : N) (v11 : bool) (cb rb lw : nat) (fill safe : bool) : c
         (in_ranges (if v11 then name_ranges_11 else name_ranges_10))
         (in_ranges (if v11 then firstname_ranges_11 else firstname_ranges_10))
         (in_ranges (if v11 then ws_ranges_11 else ws_ranges_10))
-        (in_ranges (if v11 then ncname_ranges_11 else ncname_ranges_10)).
+        (in_ranges (if v11 then ncname_ranges_11 else ncname_ranges_10)) false.
+(** the same with the column repair of finding FD switched on/off *)
+Definition with_nelcol (c : cfg) (b : bool) : cfg :=
+  mkCfg (X c) (cbsz c) (rbsz c) (low c) (fillraw c) (safename c) (nel c) (isName c) (isFirstName c) (isWS c) (isNCName c) b.
+Definition is_plain (v11 : bool) : N -> bool := in_ranges (if v11 then plain_ranges_11 else plain_ranges_10).
 
 (** the configuration of the real reader: sizes from XMLReader.hpp *)
 Definition real_cfg (enc : N) (v11 : bool) (lw : nat) (fill safe : bool) : cfg :=
